@@ -1,4 +1,4 @@
-import SqiProofs.CurveJacSeq
+import SqiProofs.CurveDblmulTop
 
 /-! # C08 — x-only Montgomery curve arithmetic implements the elliptic-curve group law
 
@@ -164,34 +164,56 @@ theorem ec_ladder3pt_correct {a : F} (h2 : (2 : F) ≠ 0) (nbits m : Nat) (curve
   have := ladder3bits_isX h2 hA hP hQ hD (bitsLSB nbits m) hg
   rwa [valLSB_bitsLSB] at this
 
-/-! ## two-dimensional scalar multiplication (xDBLMUL) — partial -/
+/-! ## two-dimensional scalar multiplication (xDBLMUL) -/
 
-/-- FULL STATEMENT (not proved): for all `nbits`, `k l < 2^nbits`, `P Q` and `PQ = P - Q` with all differences met
-non-degenerate, `IsX ([k']P + [l']Q) (xDBLMUL nbits k l P Q PQ curve)` where `k' = k` for `k ≠ 0` and `k' = 2^nbits`
-for `k = 0` (likewise `l'`) — this is what the code computes (the even scalar is decremented with wrap-around; see
-notes/C08.md, finding "scalar 0 is treated as 2^BITS"), so the statement with `k' = k` is false for `k = 0` unless
-`[2^nbits]P = ∞`.
-PROVED PART: one applied iteration of the main loop implements, on the group, doubling of the selected register and
-the two differential additions with the swapped difference registers (`dblmulStep`, over the generated
-`select_point`, `swap_points`, `xDBL_A24_normalized`, `xADD`).
-MISSING: the recoding lemma (the digits `r` reconstruct the odd-ified scalars for both parities) and the composition
-of the steps into the global invariant; the model `SqiModel.Ladder.xDBLMULgen` is tied to the C code by the
-correspondence harness and compared with the affine oracle on every run (both variants). -/
-theorem xDBLMUL_step_partial {a : F} (h2 : (2 : F) ≠ 0) {A24 : EcPoint F} (hA : 4 * A24.x = a + 2)
-    (st : DState F) (r0 r1 : Bool) (M0 M1 M2 : (mont a).Point)
-    (h0 : IsX M0 st.R0.x st.R0.z) (h1 : IsX M1 st.R1.x st.R1.z) (h2' : IsX M2 st.R2.x st.R2.z)
-    (hd1 : IsX ((if r1 then M1 else M0) - (if r1 then M2 else M1))
-      (if r1 then st.D1b else st.D1a).x (if r1 then st.D1b else st.D1a).z)
-    (hd1x : (if r1 then st.D1b else st.D1a).x ≠ 0) (hd1z : (if r1 then st.D1b else st.D1a).z ≠ 0)
-    (hd2 : IsX (M0 - M2) st.D2a.x st.D2a.z) (hd2x : st.D2a.x ≠ 0) (hd2z : st.D2a.z ≠ 0) :
-    let st' := dblmulStep A24 st (r0, r1) true
-    let S := if r0 && r1 then M2 else if xor r0 r1 then M1 else M0
-    IsX (S + S) st'.R0.x st'.R0.z ∧
-    IsX ((if r1 then M1 else M0) + (if r1 then M2 else M1)) st'.R1.x st'.R1.z ∧
-    IsX (M0 + M2) st'.R2.x st'.R2.z ∧
-    (st'.D1a, st'.D1b) = (if r1 then (st.D1b, st.D1a) else (st.D1a, st.D1b)) ∧
-    (st'.D2a, st'.D2b) = (if xor r0 r1 then (st.D2b, st.D2a) else (st.D2a, st.D2b)) :=
-  dblmulStep_ok h2 hA st r0 r1 M0 M1 M2 h0 h1 h2' hd1 hd1x hd1z hd2 hd2x hd2z
+/-- **xDBLMUL, whole function, any `nbits > 0` and any scalars.** The model `SqiModel.Ladder.xDBLMUL` (recoding loop,
+initialisation, main loop over the generated `select_point`, `swap_points`, `xDBL_A24_normalized`, `xADD`, output
+selection) returns `x([k']P + [l']Q)` where `k' = chainScalar nbits k` is `k mod 2^nbits` when that is non-zero and
+`2^nbits` when it is zero (the even scalar is decremented with wrap-around, as `mp_sub` does): see `chainScalar_pos`,
+`chainScalar_zero`. Hypotheses: `(X:Z)` representatives of `x(P), x(Q), x(P-Q)`, and `P, Q, P+Q, P-Q ∉ {∞, (0,0)}`
+(the four difference points used by the chain). Proof: recoding lemma `recode_spec` (the digits are the sign-change
+indicators of the signed-binary expansions of the odd-ified scalars, ordered by `sigma`), per-step invariant
+`chain_step`/`cs_step` (`R0, R1, R2` = even / mixed / odd neighbours of the scalar prefixes), induction `chain_fold`. -/
+theorem xDBLMUL_correct_general {a : F} (h2 : (2 : F) ≠ 0) (nbits : Nat) (hn : 0 < nbits) (k l : Nat)
+    (curve : EcCurve F) (hA : curve.A = a * curve.C) (hC : curve.C ≠ 0)
+    (hflag : curve.is_A24_computed_and_normalized ≠ 0 → 4 * curve.A24.x = a + 2)
+    (Pt Qt : (mont a).Point) (P Q PQ : EcPoint F)
+    (hP : IsX Pt P.x P.z) (hQ : IsX Qt Q.x Q.z) (hD : IsX (Pt - Qt) PQ.x PQ.z)
+    (nP : XNonDeg Pt) (nQ : XNonDeg Qt) (nS : XNonDeg (Pt + Qt)) (nD : XNonDeg (Pt - Qt)) :
+    IsX (chainScalar nbits k • Pt + chainScalar nbits l • Qt)
+      (xDBLMUL nbits k l P Q PQ curve).x (xDBLMUL nbits k l P Q PQ curve).z :=
+  xDBLMUL_ok h2 nbits hn k l curve (dblmulA24_ok h2 curve hA hC hflag) Pt Qt P Q PQ hP hQ hD nP nQ nS nD
+
+/-- `xDBLMUL` returns `x([k]P + [l]Q)` for all scalars `0 < k, l < 2^BITS` (odd or even, full width included). -/
+theorem xDBLMUL_correct {a : F} (h2 : (2 : F) ≠ 0) (nbits : Nat) (hn : 0 < nbits) (k l : Nat)
+    (hk0 : 0 < k) (hk : k < 2 ^ nbits) (hl0 : 0 < l) (hl : l < 2 ^ nbits)
+    (curve : EcCurve F) (hA : curve.A = a * curve.C) (hC : curve.C ≠ 0)
+    (hflag : curve.is_A24_computed_and_normalized ≠ 0 → 4 * curve.A24.x = a + 2)
+    (Pt Qt : (mont a).Point) (P Q PQ : EcPoint F)
+    (hP : IsX Pt P.x P.z) (hQ : IsX Qt Q.x Q.z) (hD : IsX (Pt - Qt) PQ.x PQ.z)
+    (nP : XNonDeg Pt) (nQ : XNonDeg Qt) (nS : XNonDeg (Pt + Qt)) (nD : XNonDeg (Pt - Qt)) :
+    IsX (k • Pt + l • Qt) (xDBLMUL nbits k l P Q PQ curve).x (xDBLMUL nbits k l P Q PQ curve).z := by
+  have := xDBLMUL_correct_general h2 nbits hn k l curve hA hC hflag Pt Qt P Q PQ hP hQ hD nP nQ nS nD
+  rwa [chainScalar_pos nbits k hn hk0 hk, chainScalar_pos nbits l hn hl0 hl] at this
+
+/-- the exact boundary of `xDBLMUL_correct` (known finding "scalar 0 is treated as 2^BITS"): for `k = 0` the result is
+`x([2^nbits]P + [l]Q)`; it is `x([l]Q)` exactly when `[2^nbits]P = ∞` (2-power torsion, as in the callers). -/
+theorem xDBLMUL_zero_scalar {a : F} (h2 : (2 : F) ≠ 0) (nbits : Nat) (hn : 0 < nbits) (l : Nat)
+    (hl0 : 0 < l) (hl : l < 2 ^ nbits)
+    (curve : EcCurve F) (hA : curve.A = a * curve.C) (hC : curve.C ≠ 0)
+    (hflag : curve.is_A24_computed_and_normalized ≠ 0 → 4 * curve.A24.x = a + 2)
+    (Pt Qt : (mont a).Point) (P Q PQ : EcPoint F)
+    (hP : IsX Pt P.x P.z) (hQ : IsX Qt Q.x Q.z) (hD : IsX (Pt - Qt) PQ.x PQ.z)
+    (nP : XNonDeg Pt) (nQ : XNonDeg Qt) (nS : XNonDeg (Pt + Qt)) (nD : XNonDeg (Pt - Qt)) :
+    IsX (2 ^ nbits • Pt + l • Qt) (xDBLMUL nbits 0 l P Q PQ curve).x (xDBLMUL nbits 0 l P Q PQ curve).z := by
+  have := xDBLMUL_correct_general h2 nbits hn 0 l curve hA hC hflag Pt Qt P Q PQ hP hQ hD nP nQ nS nD
+  rwa [chainScalar_zero, chainScalar_pos nbits l hn hl0 hl] at this
+
+/-- one applied iteration of the main loop on the group (building block of the theorem above) -/
+theorem xDBLMUL_step {a : F} (h2 : (2 : F) ≠ 0) {A24 : EcPoint F} (hA : 4 * A24.x = a + 2)
+    (Pt Qt : (mont a).Point) (cs : CS) (st : DState F) (rr : Bool × Bool) (hG : G Pt Qt cs st) (hv : cvalid cs rr) :
+    G Pt Qt (cstep cs rr) (dblmulStep A24 st rr true) :=
+  chain_step h2 hA Pt Qt cs st rr hG hv
 
 /-! ## repeated doubling -/
 
